@@ -53,6 +53,9 @@ func TestC02Directed(t *testing.T) {
 		{"symlink -> implied directory two levels above new files", Tree{"a": l("c"), "c/x": f(2, 5)}, Tree{"a/b/f": f(3, 100), "c/x": f(2, 5)}},
 		{"deep old tree disappears, only its files are named", Tree{"a/b/c/d/f": f(1, 100), "k": f(2, 5)}, Tree{"k": f(2, 5)}},
 		{"deep old tree moves wholesale", Tree{"a/b/c/f": f(1, 70000), "a/b/c/g": f(2, 70000)}, Tree{"z/y/x/f": f(1, 70000), "z/y/x/g": f(2, 70000)}},
+		{"two reused files displaced by a kind change, next to a new file named like the first parking name", Tree{"data/a.bin": f(1, 70000), "data/b.bin": f(2, 70000), "data/c.bin": f(3, 70000)}, Tree{"data": f(9, 10), "a.bin": f(1, 70000), "b.bin": f(2, 70000), "c.bin": f(3, 70000), ".butler-parked-0": f(5, 100), ".butler-parked-1": f(6, 100)}},
+		{"swap next to a symlink named like a temporary name", Tree{"x": f(1, 70000), "y": f(2, 70000), ".butler-rename-1": l("x"), ".butler-rename-2": l("y")}, Tree{"x": f(2, 70000), "y": f(1, 70000), ".butler-rename-1": l("x"), ".butler-rename-2": l("y")}},
+		{"swap next to a directory named like a temporary name", Tree{"bin/x": f(1, 70000), "bin/y": f(2, 70000), "bin/.butler-rename-1/keep": f(3, 100), "bin/.butler-rename-2/keep": f(4, 100)}, Tree{"bin/x": f(2, 70000), "bin/y": f(1, 70000), "bin/.butler-rename-1/keep": f(3, 100), "bin/.butler-rename-2/keep": f(4, 100)}},
 		{"swap of two files whose names are close to the length limit", Tree{longName: f(1, 70000), longName + "2": f(2, 70000)}, Tree{longName: f(2, 70000), longName + "2": f(1, 70000)}},
 		{"rename chain next to files named like temporary names", Tree{"a": f(1, 70000), "b": f(2, 70000), "b.butler-rename-1": f(3, 100), ".butler-rename-1": f(4, 100)}, Tree{"b": f(1, 70000), "c": f(2, 70000), "b.butler-rename-1": f(3, 100), ".butler-rename-1": f(4, 100)}},
 		{"parked file next to a new file named like a parking name", Tree{"q": f(4, 1000)}, Tree{"q/inner": f(4, 1000), ".butler-parked-0": f(5, 100)}},
